@@ -22,7 +22,7 @@ RULES = {
     'R10': 'connection_destroyed is called under a guard reference, so that a reference taken and dropped inside it does not destroy the connection a second time',
     'R11': 'what can fault comes last under the SIGBUS guard: in the transport disconnect that sets a jump target for SIGBUS, for every connection state, no deregistration or close of the connection\'s descriptor follows a ring close in the same call (a ring file the client truncated makes the close jump to the end: the descriptor would stay in the main loop, dispatching to a connection that is then destroyed)',
 }
-FLOORS = {'R11': 4, 'R1': 24, 'R2': 4, 'R3': 7, 'R4': 8, 'R5': 2, 'R6': 5, 'R7': 6, 'R8': 3, 'R9': 6, 'R10': 1}
+FLOORS = {'R11': 4, 'R1': 24, 'R2': 4, 'R3': 9, 'R4': 8, 'R5': 2, 'R6': 5, 'R7': 6, 'R8': 3, 'R9': 6, 'R10': 1}
 
 CB = ('connection_accept', 'connection_created', 'msg_process', 'connection_closed', 'connection_destroyed')
 SLOT = 'qb_ipcs_service_handlers::%s'
@@ -514,6 +514,16 @@ def r3(ctx):
                           'the connection leaves the service list in the final unref',
                           '%s takes a connection off the service list while references may remain: qb_ipcs_connection_next_get(current) then follows '
                           'the stale links of a disconnected connection into freed neighbours' % g.name)
+    # ... and on every path to the free: a connection that is freed while still on the service list (or holding its service
+    # reference) is what the next list operation walks into
+    if seq and seq[-1][0] == 'free-connection':
+        for (nm, ev) in seq[:-1]:
+            if nm not in ('list-removal', 'service-unref'):
+                continue
+            hits, _e, _n = f.search(('entry',), goal=lambda x, fr_=seq[-1][1]: x.d is fr_.d, stop=lambda x, ev=ev: x.d is ev.d)
+            ctx.check('R3', '%s-on-every-path-to-free' % nm, not hits, ev, 'the connection is never freed without %s' % nm,
+                      'free(c) can be reached without %s: the connection is freed while it is still linked into the service\'s list (a connection torn down while ACTIVE is set back to INACTIVE before its last reference goes), and the next add, walk or destroy touches freed memory'
+                      % nm if nm == 'list-removal' else 'free(c) can be reached without %s' % nm)
     for i in range(len(seq) - 1):
         a, b = seq[i], seq[i + 1]
         ctx.check('R3', 'order:%s<%s' % (a[0], b[0]), f.may_follow(a[1], b[1]) and not f.may_follow(b[1], a[1]), b[1],
